@@ -7,6 +7,7 @@ import (
 
 	"verif/checker/internal/an"
 	"verif/checker/internal/load"
+	"verif/checker/internal/props"
 
 	"golang.org/x/tools/go/ssa"
 )
@@ -95,4 +96,55 @@ func dumpFn(p *load.Program, fn *ssa.Function) {
 			}
 		}
 	}
+}
+
+// terms prints the symbolic terms extracted for one function (engine E10).  Debugging aid.
+//   verif terms <pkg> <recv|-> <name> [repo] [paramIndex=true|false|N ...]
+func terms(args []string) int {
+	if len(args) < 3 {
+		fmt.Fprintln(os.Stderr, "usage: verif terms <pkg> <recv|-> <name> [repo] [i=value…]")
+		return 2
+	}
+	repo := "/repo"
+	force := map[int]*an.T{}
+	for _, a := range args[3:] {
+		if i := strings.Index(a, "="); i > 0 {
+			var idx int
+			fmt.Sscanf(a[:i], "%d", &idx)
+			v := a[i+1:]
+			if v == "true" || v == "false" {
+				force[idx] = an.Sym(v)
+			} else {
+				var n int64
+				fmt.Sscanf(v, "%d", &n)
+				force[idx] = an.Num(n)
+			}
+			continue
+		}
+		repo = a
+	}
+	p, err := load.Load(repo, load.Config{})
+	if err != nil {
+		fmt.Fprintln(os.Stderr, err)
+		return 2
+	}
+	pkg := args[0]
+	if pkg == "." {
+		pkg = load.RootMod
+	} else if !strings.Contains(pkg, ".") {
+		pkg = load.RootMod + "/" + pkg
+	}
+	recv := args[1]
+	if recv == "-" {
+		recv = ""
+	}
+	fn := p.Func(pkg, recv, args[2])
+	if fn == nil {
+		fmt.Fprintln(os.Stderr, "function not found")
+		return 2
+	}
+	for _, l := range props.TermsDebug(p, fn, force) {
+		fmt.Println(l)
+	}
+	return 0
 }
